@@ -47,6 +47,8 @@ pub fn main() {
     run.require_counter("cases_with_2plus_faults");
     let shards = n_shards(&run);
     let run = &run;
+    let statics = static_family(run);
+    let statics = &statics;
     std::thread::scope(|sc| {
         for shard in 0..shards {
             sc.spawn(move || {
@@ -57,7 +59,12 @@ pub fn main() {
                 while i < cases {
                     i += shards;
                     let (ts, schema) = if r.chance(2, 3) {
-                        (s1ts.clone(), s1schema.clone())
+                        // static flavour: S1, or (a sixth of these: the check is at its time budget and the family is
+                        // compiled without optimisation) a member of the generated derive-built family
+                        match pick_family_p(run, statics, &mut r, 1, 6) {
+                            Some(m) => (m.ts.clone(), m.schema.clone()),
+                            None => (s1ts.clone(), s1schema.clone()),
+                        }
                     } else {
                         let mut to = ts_opts(run);
                         to.max_objects = 3;
@@ -177,6 +184,7 @@ pub fn main() {
             });
         }
     });
+    run.extra("static_schemas", static_family_extra(statics));
     run.finish_code_exit();
 }
 
